@@ -1,6 +1,7 @@
 """C09 — JitAllocator never hands out overlapping, misaligned or corrupted memory (DESIGN.md section 6, C09)."""
 import itertools
 import os
+import re
 import time
 from concurrent.futures import ThreadPoolExecutor
 
@@ -31,7 +32,9 @@ MANIFEST = {
             "(model_accepted_by_spec, a simulation proof Lemmas/JitAllocSim*.lean); with explicit rx/rw base addresses per block "
             "(Layout, OS behaviour = hypothesis LayoutOK) distinct live spans are disjoint in the rx view, in the rw view and across "
             "the views, and both addresses of a byte denote the same cell (rx_view_disjoint, rw_view_disjoint, views_never_cross, "
-            "views_alias_same_cell). The model is "
+            "views_alias_same_cell); machine arithmetic: no block exceeds 2^31+2^29 bytes and the 64/32-bit expressions of the block-size, "
+            "request and shrink computations are exact (block_sizes_bounded, block_size_arithmetic_exact, request_arithmetic_exact, "
+            "shrink_arithmetic). The model is "
             "tied to the real code by running both on bounded-exhaustive and seeded random histories (all option sets, granularities, block "
             "sizes) comparing every answer, the statistics after every operation and the private block state; Spec/JitAlloc.lean "
             "(independent ghost-table monitor: disjointness, alignment, size, contents, fill pattern, query sweep, statistics, reusability, "
@@ -39,17 +42,20 @@ MANIFEST = {
     "note": "Trusted: Lean kernel; Spec/JitAlloc.lean as the meaning of the property (padding granule = span reserved by the allocator); "
             "the harness/driver/diff. OS behaviour is only tested (mmap/dual mapping give fresh page-aligned disjoint ranges, rw aliases rx; the "
             "harness checks both on every block), large pages are never granted in the sandbox, thread safety is C11. The RB tree lookup is "
-            "modelled as lookup by block id (C18). Sizes near 2^64 (overflow exits) are not modelled. Memory is modelled per granule "
+            "modelled as lookup by block id (C18). The model computes in unbounded naturals; the machine-width expressions of the code (size_t / uint32_t, "
+            "wrap and truncation explicit: Lemmas/JitAllocWord.lean) are proved equal to it in every reachable state (block_sizes_bounded, "
+            "block_size_arithmetic_exact, request_arithmetic_exact, shrink_arithmetic), except the two narrowing findings C09-9 / C09-10. "
+            "Requests at the upper limit (2 GiB blocks) run on the real code and the monitor only. Memory is modelled per granule "
             "(whole-granule writes only). LayoutOK (mappings of block_size bytes, pairwise apart, rw = rx with single mapping) is an "
             "assumption about mmap, checked by the harness on every block.",
 }
 MODS = ["AsmjitVerif.Props.C09", "AsmjitVerif.Props.C09Refine"]
 SHRINK_DEADLINE = [float("inf")]   # wall-clock limit for shrinking (set per run: the quick tier stays under ~3 min on failure paths too)
 
-OPT_DUAL, OPT_MULTI, OPT_FILL, OPT_IMM, OPT_NOPAD, OPT_LARGE, OPT_CUSTOM = 1, 2, 4, 8, 16, 32, 0x10000000
+OPT_DUAL, OPT_MULTI, OPT_FILL, OPT_IMM, OPT_NOPAD, OPT_LARGE, OPT_ALIGNLP, OPT_CUSTOM = 1, 2, 4, 8, 16, 32, 64, 0x10000000
 # the 8 most different option sets (quick); thorough uses all 2^6 x custom pattern
 QUICK_OPTS = [0, OPT_NOPAD, OPT_FILL | OPT_IMM, OPT_MULTI | OPT_FILL, OPT_DUAL | OPT_FILL | OPT_CUSTOM, OPT_MULTI | OPT_IMM | OPT_NOPAD,
-              OPT_LARGE | OPT_FILL | OPT_NOPAD | OPT_CUSTOM, OPT_DUAL | OPT_MULTI | OPT_FILL | OPT_IMM | OPT_NOPAD | OPT_LARGE | OPT_CUSTOM]
+              OPT_LARGE | OPT_ALIGNLP | OPT_FILL | OPT_NOPAD | OPT_CUSTOM, OPT_DUAL | OPT_MULTI | OPT_FILL | OPT_IMM | OPT_NOPAD | OPT_LARGE | OPT_CUSTOM]
 PATTERNS = [0xA1B2C3D4, 0x90909090, 0x00000000, 0xD4D4D4D4, 0x0badf00d]
 
 
@@ -101,9 +107,65 @@ def sizing_histories(opts, gran, bs):
     for pre in prefixes:
         h = sum(1 for l in pre if l.startswith("alloc"))
         for sz in sizes:
+            # per-granule observers (sweep / mem) only on the smaller blocks: they cost O(block) in the harness
+            obs = ["sweep", "mem"] if sz <= 2 * bs else ["dump"]
             yield ([cfg_line(opts, gran, bs, 0x90909090), "isinit"] + pre +
-                   ["alloc %d" % sz, "write %d 41" % h, "query %d %d" % (h, sz - 1), "dump", "sweep", "read %d" % h,
-                    "alloc %d" % gran, "release %d" % h, "blocks", "alloc %d" % sz, "dump", "sweep", "mem", "blocks"])
+                   ["alloc %d" % sz, "write %d 41" % h, "query %d %d" % (h, sz - 1), "dump", obs[0], "read %d" % h,
+                    "alloc %d" % gran, "release %d" % h, "blocks", "alloc %d" % sz, "dump"] + obs + ["blocks"])
+
+
+def large_page_histories(opts, gran):
+    """kUseLargePages (+ kAlignBlockSizeToLargePage): blocks of at least the large-page size (2 MiB) and, with the align option, every
+    block take the large-page attempt of JitAllocator_new_block; the sandbox grants none, so the fallback to regular pages is what runs."""
+    pad = 0 if opts & OPT_NOPAD else gran
+    for pre in ([], ["alloc 1"]):
+        h = len(pre)
+        for sz in (2 ** 21, 2 ** 21 - pad, 2 ** 22 + 1):
+            yield ([cfg_line(opts, gran, 65536, 0x90909090), "isinit"] + pre +
+                   ["alloc %d" % sz, "query %d %d" % (h, sz - 1), "blocks", "dump", "alloc %d" % gran, "shrink %d %d" % (h, 2 ** 20), "dump",
+                    "release %d" % h, "blocks", "alloc %d" % sz, "blocks", "dump", "reset soft", "blocks"])
+
+
+HUGE = [2 ** 31, 2 ** 32, 2 ** 32 + 1, 2 ** 63, 2 ** 64 - 1, 2 ** 64 - 63, 2 ** 64 - 64]
+
+
+def overflow_histories(opts, gran):
+    """Directed family for the 32/64-bit narrowing points (decided on the model first, Lemmas/JitAllocWord.lean): `shrink` / truncating
+    write to sizes of 2^32 granules and more (the uint32_t narrowing of `area_size_from_byte_size`), to sizes near 2^31 / 2^32 / 2^63 /
+    2^64 and one granule around the span size; `alloc` of sizes near 2^31, 2^32, 2^63 and within one granule of 2^64 (the alignment
+    wraps to 0).  Small blocks: run on the real code, the model and the monitor."""
+    pg = [gran, 2 * gran, 4 * gran] if opts & OPT_MULTI else [gran]
+    news = HUGE + [g * 2 ** 32 + d for g in pg for d in (0, 1, g, -g + 1)] + [257 * gran, 256 * gran + 1]
+    for ns in news:
+        for op in ("shrink 1 %d", "wtrunc 1 5a %d"):
+            yield [cfg_line(opts, gran, 65536, 0xA1B2C3D4), "isinit", "alloc %d" % (2 * gran), "alloc %d" % (256 * gran), "alloc %d" % gran,
+                   "write 0 41", "write 1 42", "write 2 43", op % ns, "sweep", "dump", "read 0", "read 1", "read 2", "mem",
+                   "alloc %d" % gran, "sweep", "release 1", "sweep", "blocks"]
+    sizes = HUGE + [2 ** 31 - 1, 2 ** 31 - gran + 1, 2 ** 31 + gran, 2 ** 64 - gran, 2 ** 64 - gran + 1, 2 ** 64 - 4 * gran, 2 ** 64 - 4 * gran + 1]
+    yield ([cfg_line(opts, gran, 65536, 0xA1B2C3D4), "isinit", "alloc %d" % gran] + ["alloc %d" % z for z in sizes] +
+           ["query 0 %d" % z for z in HUGE[:5]] + ["sweep", "dump", "blocks"])
+
+
+def big_histories(quick):
+    """Requests at the upper limit (2^31 - granularity bytes: blocks of 2 GiB and more, area sizes of 2^25 granules), on the real code
+    and the monitor only (the list-based model cannot hold 2^25 granules; virtual memory is cheap: the allocator maps, it does not touch
+    the pages - so no fill option, no write / read / sweep / mem here)."""
+    out = []
+    plan = [(0, 64), (OPT_NOPAD, 64), (OPT_MULTI, 256), (OPT_DUAL, 128), (OPT_LARGE | OPT_ALIGNLP | OPT_IMM, 64)]
+    if not quick:
+        plan += [(OPT_MULTI | OPT_NOPAD, 64), (OPT_DUAL | OPT_MULTI, 256), (OPT_LARGE, 256), (OPT_IMM | OPT_NOPAD, 128)]
+    for opts, gran in plan:
+        top = 2 ** 31 - gran             # the largest request `alloc` accepts
+        pg = 4 * gran if opts & OPT_MULTI else gran
+        top_pool = 2 ** 31 - pg          # the largest one served by the coarsest pool
+        out.append([cfg_line(opts, gran, 65536, 0), "isinit", "alloc %d" % top, "blocks", "dump", "alloc %d" % (top + 1), "alloc %d" % 2 ** 31,
+                    "query 0 %d" % (top - 1), "query 0 %d" % top, "shrink 0 %d" % (top + 1), "shrink 0 %d" % (top - gran + 1), "dump",
+                    "shrink 0 %d" % (top - gran), "dump", "alloc %d" % gran, "alloc %d" % top_pool, "blocks", "dump",
+                    "shrink 0 %d" % 2 ** 38, "shrink 0 %d" % (2 ** 64 - 1), "shrink 0 1", "dump", "release 0", "release 1", "release 2", "blocks", "dump"])
+        out.append([cfg_line(opts, gran, 262144, 0), "isinit", "alloc %d" % gran, "alloc %d" % top_pool, "blocks", "alloc %d" % (2 ** 30), "blocks",
+                    "dump", "release 1", "alloc %d" % (2 ** 30 + 2 ** 29), "blocks", "dump", "reset soft", "blocks", "alloc %d" % top, "blocks",
+                    "reset hard", "blocks"])
+    return out
 
 
 def random_history(rng, opts, gran, block, pat, nops, profile):
@@ -131,7 +193,7 @@ def random_history(rng, opts, gran, block, pat, nops, profile):
             return rng.randrange(eff_block // 2, 3 * eff_block)
         if r < 0.95:
             return pick_opening_size()
-        return rng.choice([0, 5 * eff_block + 1, 2 ** 31, 2 ** 31 - 1 + eff_gran, 2 ** 32 + 5])
+        return rng.choice([0, 5 * eff_block + 1, 2 ** 31, 2 ** 31 - 1 + eff_gran, 2 ** 32 + 5, 2 ** 64 - 1, 2 ** 64 - eff_gran, 2 ** 63])
 
     def pick_opening_size():
         """a request for a moment when a new block is likely to be opened: exact multiples of the base block size, with / without room
@@ -174,6 +236,8 @@ def random_history(rng, opts, gran, block, pat, nops, profile):
             sz = handles[h][1] if h < len(handles) else 64
             ns = rng.choice([1, eff_gran, max(1, sz // 2), max(1, sz - 1), sz, sz + 1, max(1, sz - eff_gran), 0 if rng.random() < 0.3 else 1,
                              rng.randrange(1, max(2, sz))])
+            if rng.random() < 0.04:    # beyond the span: must be refused whatever the width of the arithmetic
+                ns = rng.choice(HUGE + [eff_gran * 2 ** 32, 4 * eff_gran * 2 ** 32 + eff_gran, sz + eff_gran, 2 ** 32 + sz])
             if rng.random() < 0.5:
                 lines.append("shrink %d %d" % (h, ns))
             else:
@@ -250,6 +314,8 @@ class Runner:
         out = [("bad", i, m) for i, m in effective_bads(mon, hist)]
         if out:
             return out
+        if any(l.startswith("alloc ") and a.startswith("ok") and 2 ** 27 <= int(l.split()[1]) < 2 ** 31 for l, a in zip(hist, impl)):
+            return []      # 2 GiB blocks: the list-based model is not run (big_histories)
         model = self.model(hist)
         d = vlib.first_diff(impl, model)
         if d is not None:
@@ -280,15 +346,17 @@ def effective_bads(mon, lines):
     return out
 
 
+_KEY_NOISE = re.compile(r"\[[^\]\)]*[\]\)]|\b0x[0-9a-fA-F]+\b|\b[hbp]?\d+\b|[,:=+()]")
+
+
 def bad_key(msg):
-    """stable key of a class of monitor verdicts: 'mon:' + first word (+ the statistic's name)"""
-    w = msg.split()
+    """stable key of a class of monitor verdicts: 'mon:' + the words of the message without numbers / handle and block names, so
+    that two different failures of the same operation family ('span leaves its block' / 'span overlaps ...', the six shrink verdicts,
+    each statistic) get different keys and neither swallows the other"""
+    w = _KEY_NOISE.sub(" ", msg).split()
     if len(w) < 2:
         return "mon:?"
-    k = w[1].rstrip(":")
-    if k in ("statistics", "retention", "reset") and len(w) > 2:
-        k += "-" + w[2].rstrip(",:")
-    return "mon:" + k
+    return "mon:" + "-".join(w[1:8])
 
 
 def shrink_history(runner, hist, kind, key):
@@ -306,7 +374,7 @@ def shrink_history(runner, hist, kind, key):
     return [cfg] + small
 
 
-def run_batch(runner, hists):
+def run_batch(runner, hists, with_model=True):
     """Runs a batch of histories through harness, model and monitor. Returns list of findings (kind, history, detail...) and counters."""
     findings = []
     stats = {"lines": 0, "hist": 0, "answers": {}, "crashes": 0, "nontrivial": set()}
@@ -324,7 +392,8 @@ def run_batch(runner, hists):
             impl_all += impl
             lines_all += flat
             break
-        # the history in progress when the harness died
+        # the history in progress when the harness died (its last answer line may be cut off: never judge it)
+        impl = impl[:-1]
         k = owner[len(impl)] if len(impl) < len(owner) else len(pending) - 1
         done = sum(len(h) for h in pending[:k])
         impl_all += impl[:done]
@@ -338,7 +407,7 @@ def run_batch(runner, hists):
         findings.append(("protocol", lines_all[:5], "harness answered %d of %d lines" % (len(impl_all), len(lines_all))))
         return findings, stats, [], [], []
     mon = runner.monitor(lines_all, impl_all)
-    model = runner.model(lines_all)
+    model = runner.model(lines_all) if with_model else list(impl_all)
     if len(mon) != len(lines_all) or len(model) != len(lines_all):
         findings.append(("protocol", lines_all[:5], "driver answered %d/%d of %d lines" % (len(model), len(mon), len(lines_all))))
         return findings, stats, lines_all, impl_all, model
@@ -393,9 +462,22 @@ def build_histories(res, rng):
     if quick:
         splan = [(o, g, 65536) for o in QUICK_OPTS for g in (64, 128, 256)] + [(0, 64, 131072), (OPT_MULTI | OPT_FILL, 256, 131072)]
     else:
-        splan = [(o, g, b) for o in range(64) for g in (64, 128, 256) for b in (65536, 131072)]
+        splan = [(o, g, 65536) for o in range(64) for g in (64, 128, 256)] + [(o, g, 131072) for o in QUICK_OPTS for g in (64, 256)] + \
+                [(o | OPT_ALIGNLP, 64, 65536) for o in range(64) if o & OPT_LARGE]
     for o, g, b in splan:
         for hst in sizing_histories(o, g, b):
+            hists.append(hst)
+            nsz += 1
+    # directed: the large-page attempt and its fallback
+    for o in ([OPT_LARGE, OPT_LARGE | OPT_ALIGNLP | OPT_FILL, OPT_LARGE | OPT_ALIGNLP | OPT_MULTI | OPT_NOPAD, OPT_DUAL | OPT_LARGE | OPT_ALIGNLP] if quick else
+              [x | a for x in range(64) if x & OPT_LARGE for a in (0, OPT_ALIGNLP)]):
+        for hst in large_page_histories(o, 64 if quick else [64, 128, 256][o % 3]):
+            hists.append(hst)
+            nsz += 1
+    # directed: narrowing points of the 32/64-bit arithmetic
+    for o, g in ([(o, g) for o in QUICK_OPTS for g in (64, 256)] if quick else
+                 [(o, g) for o in range(128) if not (o & OPT_ALIGNLP) or (o & OPT_LARGE) for g in (64, 128, 256)]):
+        for hst in overflow_histories(o, g):
             hists.append(hst)
             nsz += 1
     # seeded random histories
@@ -404,7 +486,7 @@ def build_histories(res, rng):
         optsets = QUICK_OPTS
         nops, reps = 1500, 1
     else:
-        optsets = [o | c for o in range(64) for c in (0, OPT_CUSTOM)]
+        optsets = [o | c for o in range(64) for c in (0, OPT_CUSTOM)] + [o | OPT_ALIGNLP for o in range(64) if o & OPT_LARGE]
         nops, reps = 800, 1
     nrand = 0
     for k, opts in enumerate(optsets):
@@ -426,10 +508,12 @@ def run(res):
     rng = vlib.rng_for(res.seed, PID)
     res.assumptions += [
         "mmap / dual mapping return fresh, page-aligned, pairwise disjoint ranges and the rw view aliases the rx view (tested by the harness on every block, not proved)",
-        "large pages are never granted (sandbox): JitAllocator_new_block falls back to regular pages",
+        "large pages are never granted (sandbox: THP size 2 MiB is reported, no huge pages are reserved): with kUseLargePages (+ kAlignBlockSizeToLargePage) "
+        "the MAP_HUGETLB attempt of JitAllocator_new_block fails and the fallback to regular pages is what is exercised (blocks >= 2 MiB and the align option)",
         "RB tree lookup by address = lookup by block id (ArenaTree is C18's subject)",
         "release(p) is specified for p = start of a live span; stale in-block pointers are only exercised through query/shrink",
-        "request sizes far below 2^64: the overflow exits of calculate_ideal_block_size are not modelled",
+        "the model computes in unbounded naturals; Lemmas/JitAllocWord.lean proves the size_t / uint32_t expressions of the code equal to it in every "
+        "reachable state (except the two findings C09-9 / C09-10); requests of 2^31 - granularity bytes are run on the real code and the monitor only",
         "memory is modelled per granule: the protocol writes whole spans only",
         "the padding granule is read as a span reserved by the allocator (counted in used_size, reported by query)",
     ]
@@ -464,8 +548,12 @@ def run(res):
         k = sizes.index(min(sizes))
         buckets[k].append(hst)
         sizes[k] += len(hst)
-    with ThreadPoolExecutor(njobs) as ex:
+    big = big_histories(res.tier == "quick")
+    with ThreadPoolExecutor(njobs + 1) as ex:
+        fbig = ex.submit(run_batch, runner, big, False)     # 2 GiB requests: real code + monitor only
         results = list(ex.map(lambda b: run_batch(runner, b), buckets))
+        results.append(fbig.result())
+    hists = hists + big
 
     vlib.log("[c09] %d histories run in %.0fs" % (len(hists), _t.time() - t0))
     findings, answers = [], {}
@@ -497,7 +585,8 @@ def run(res):
                             "allocator and the model and judged by the Lean monitor; evaluations = protocol lines executed; distinct_nontrivial = number of "
                             "distinct histories in which the real allocator handed out at least one span")
     res.coverage["exhaustive"] = False
-    res.coverage["histories"] = {"bounded_exhaustive": nex, "block_sizing_directed": nsz, "random": nrand, "corpus": len(chists)}
+    res.coverage["histories"] = {"bounded_exhaustive": nex, "block_sizing_and_overflow_directed": nsz, "upper_limit_2GiB_no_model": len(big),
+                                 "random": nrand, "corpus": len(chists)}
     res.coverage["input_distribution"] = dict(sorted(answers.items()))
     res.add_samples(samples)
     res.coverage["traces_validated_against_impl"] = nlines
@@ -506,7 +595,6 @@ def run(res):
     seen = set()
     order = {"crash": 0, "bad": 1, "protocol": 2, "diff": 3}
     findings.sort(key=lambda f: (order[f[0]], len(f[1])))
-    have_input = any(f[0] in ("crash", "bad") for f in findings)
     for f in findings:
         kind = f[0]
         if kind == "crash":
@@ -533,7 +621,9 @@ def run(res):
                 continue
             seen.add("protocol")
             res.violation("driver/harness protocol failure: %s" % f[2], {"ops_head": f[1]}, False, key="protocol")
-        elif kind == "diff" and not have_input:
+        elif kind == "diff":
+            # always reported (found_input=False, key "corr"): a diff is only recorded for a history in which the monitor raised nothing,
+            # so no reported violation explains it; violations in OTHER histories (or open known findings) must not hide it
             if "corr" in seen:
                 continue
             seen.add("corr")
@@ -541,12 +631,12 @@ def run(res):
             j = [x for x in runner.judge(small) if x[0] == "diff"]
             d = j[0] if j else f
             at = d[1] if j else 0
-            res.violation("correspondence Model/JitAlloc.lean ~ jitallocator.cpp differs at %r: impl=%s model=%s; the property monitor holds on "
-                          "every explored history" % (small[min(at, len(small) - 1)], str(d[-2])[:300], str(d[-1])[:300]),
+            res.violation("correspondence Model/JitAlloc.lean ~ jitallocator.cpp differs at %r: impl=%s model=%s; the property monitor raised nothing in "
+                          "this history" % (small[min(at, len(small) - 1)], str(d[-2])[:300], str(d[-1])[:300]),
                           {"ops": small, "impl": str(d[-2])[:2000], "model": str(d[-1])[:2000], "unchecked": "correspondence Model/JitAlloc.lean ~ jitallocator.cpp"},
                           False, key="corr")
     vlib.log("[c09] classification + shrinking done at %.0fs" % (_t.time() - res.t0))
-    if broken and not res.violations:
+    if broken:
         res.violation("proof obligation no longer checks: " + " | ".join(broken)[:1500], {"unchecked": broken}, False, key="obligation")
     res.notes.append("findings by class: %s" % {k: sum(1 for f in findings if (f[0] if f[0] != "bad" else bad_key(f[3])) == k) for k in
                                                {(f[0] if f[0] != "bad" else bad_key(f[3])) for f in findings}})
